@@ -683,6 +683,18 @@ def op_quant(w, ins):
     names = [w.names[k] for k in ks]
     want = T.forall(a.tt, ks) if forall else T.exists(a.tt, ks)
     cont = _container(ins.get('cont', 0), names)
+    if ins.get('cont', 0) == 7:
+        # a generator whose items are chosen by small computations in the
+        # same manager (`(v for v in names if depends_on(v))`); with integer
+        # references and reordering on, its intermediates would be the
+        # caller's risk, so autoref only then
+        if g.flavor == 'raw' and g.api.configure()['reordering']:
+            cont = list(names)
+        else:
+            api, uref = g.api, a.ref
+            chosen = set(names)
+            cont = (nm for nm in [w.names[k] for k in dec]
+                    if (api.apply('and', api.var(nm), uref) is not None) and nm in chosen)
     if how == 'quantify':
         if ins.get('kwarg'):
             ok, v = call(w, g.api.quantify, a.ref, cont, forall=forall)
@@ -945,6 +957,28 @@ def op_dup(w, ins):
     take_result(w, s.m, ok, v, s.tt, 'C08', what=f'dup[{how}]')
 
 
+def _rebuild_when_full(w, g, level_or_var, lo, hi, want_node):
+    """Asking the manager for the node (var, low, high) that it already stores
+    gives that node back -- also when the manager is full (`max_nodes`), since
+    no new node is needed."""
+    if g.api.configure()['reordering']:
+        return
+    raw = g.raw
+    saved = raw.max_nodes
+    raw.max_nodes = min(saved, raw._min_free + 1)      # not one more node fits
+    try:
+        ok, v = call(w, g.api.find_or_add, level_or_var, lo, hi)
+    finally:
+        raw.max_nodes = saved
+    w.stats['rebuild_when_full'] += 1
+    if not ok:
+        w.cur_info.pop('raised', None)
+        w.fail('exception:' + v[0], f'find_or_add of the stored node @{want_node} (its own var, low, high) raised {v[1]} on a full manager, where no new node is needed', owner_tags(w, 'C18'))
+    if abs(node_of(v)) != want_node:
+        w.fail('wrong_result', f'find_or_add(var, low, high) of @{want_node} returned @{node_of(v)}', owner_tags(w, 'C18') + ['C02'])
+    del v
+
+
 def op_traverse(w, ins):
     """low/high/succ create temporary handles (C08, C18)."""
     m = ins.get('m', 0)
@@ -977,6 +1011,7 @@ def op_traverse(w, ins):
             d = T.neg(d)
         if d != a.tt:
             w.fail('wrong_result', 'Shannon re-composition from succ differs from the reference', ['C18'])
+        _rebuild_when_full(w, g, lv, lo, hi, abs(u))
         return
     how = ins.get('how', 0)
     if how == 0:
@@ -996,6 +1031,7 @@ def op_traverse(w, ins):
         w.fail('wrong_result', f'negated/level of @{u} wrong', ['C18'])
     if d != a.tt:
         w.fail('wrong_result', 'Shannon re-composition from var/low/high/negated differs from the reference', ['C18'])
+    _rebuild_when_full(w, g, nm, lo, hi, abs(u))
     keep = ins.get('keepmask', 0)
     # (the same object handed out twice is one handle, not two)
     if keep & 1 and not any(s_.ref is lo for s_ in w.slots):
